@@ -8,7 +8,7 @@ import warnings
 import numpy as np
 
 ID = "C17"
-MODULES = ["Series", "Quad", "Alloc", "Ctrl", "Ref", "RefP"]
+MODULES = ["Series", "SO2", "SE2", "Rn", "SO3", "Quad", "Alloc", "Ctrl", "Ref", "RefP"]
 LEAN_TARGETS = ["Props.C17"]
 ANCHORS = ["cyecca/models/quadrotor.py", "cyecca/models/rdd2.py", "cyecca/models/rdd2_loglinear.py", "scripts/rdd2_sim.py"]
 MISSING = [
